@@ -14,6 +14,7 @@ import (
 	"sync"
 	"time"
 
+	sdklog "go.opentelemetry.io/otel/sdk/log"
 	sdktrace "go.opentelemetry.io/otel/sdk/trace"
 	"go.opentelemetry.io/otel/sdk/verifh/vh"
 )
@@ -88,6 +89,16 @@ func sequentialDirected() []Scenario {
 		seqScenario("log-components-fail", "log", stockL, []string{"q1", "q2", "q3"},
 			Step{Op: "Emit", Via: "old"}, Step{Op: "Fault", F: "comp"}, Step{Op: "ForceFlush", Ctx: live},
 			Step{Op: "Shutdown", Ctx: live}, Step{Op: "Shutdown", Ctx: live}, Step{Op: "Get"}, Step{Op: "Emit", Via: "new"}),
+		// every stock component: Shutdown with a cancelled / an expiring context, then with a live one -- whatever the
+		// first call returned, the exporter ends up shut down exactly once
+		seqScenario("trace-stock-expiring-then-live-shutdown", "trace", stockT, []string{"c1", "c2", "c3"},
+			Step{Op: "StartEnd", Via: "old"}, Step{Op: "Shutdown", Ctx: "expiring"}, Step{Op: "Shutdown", Ctx: live}),
+		seqScenario("log-stock-expiring-then-live-shutdown", "log", stockL, []string{"q1", "q2", "q3"},
+			Step{Op: "Emit", Via: "old"}, Step{Op: "Shutdown", Ctx: "expiring"}, Step{Op: "Shutdown", Ctx: live}),
+		seqScenario("log-stock-cancelled-then-live-shutdown", "log", stockL, []string{"q1", "q2", "q3"},
+			Step{Op: "Emit", Via: "old"}, Step{Op: "Shutdown", Ctx: canc}, Step{Op: "Shutdown", Ctx: live}, Step{Op: "Shutdown", Ctx: canc}),
+		seqScenario("metric-stock-expiring-then-live-shutdown", "metric", map[string]string{"r1": "periodic", "r2": "manual"}, []string{"r1", "r2"},
+			Step{Op: "Add", Via: "old"}, Step{Op: "Shutdown", Ctx: "expiring"}, Step{Op: "Shutdown", Ctx: live}),
 		seqScenario("metric-cancelled", "metric", stockM, []string{"r1", "r2"},
 			Step{Op: "Add", Via: "old"}, Step{Op: "Shutdown", Ctx: canc}, Step{Op: "Shutdown", Ctx: live},
 			Step{Op: "Collect", C: "r2"}, Step{Op: "ForceFlush", Ctx: canc}),
@@ -169,6 +180,9 @@ func (d *director) end(quiescentIfDone bool) {
 	q := false
 	if !d.hung { // (a reported hang leaves its goroutines parked for good)
 		q = d.s.finish(all)
+	}
+	if q {
+		d.s.settle()
 	}
 	d.s.em.ev("EndScenario", "quiescent", q && quiescentIfDone)
 	d.s.cleanup()
@@ -267,6 +281,35 @@ func bspRace(i int, name string, blocking, flush bool, tw *vh.TraceWriter, res *
 	}
 }
 
+// logBatchOutOfTime: the poll goroutine of the log BatchProcessor is parked (sdk/log verif point
+// blp.poll.woke, reached through the 300 us export interval) while Shutdown is called with a context
+// that expires: Shutdown takes its "out of time" exit and returns the ctx error. The processor is
+// marked stopped, so no later Shutdown can make up for anything that exit leaves undone: by the time
+// everything has returned, the poll goroutine was released and a last Shutdown(live) was made, the
+// exporter must have been shut down exactly once (contract: exporter-shutdown-never / -twice).
+func logBatchOutOfTime(i int, ctxKind string, tw *vh.TraceWriter, res *vh.Result, bound time.Duration) {
+	sc := Scenario{Name: "log-batch-shutdown-out-of-time-" + ctxKind, Prov: "log", Kinds: map[string]string{"q1": "batch", "q2": "simple"},
+		Init: []string{"q1", "q2"}, IntervalUs: 300}
+	g := newGate()
+	sdklog.SetVerifHook(func(point string, args ...any) {
+		if point == "blp.poll.woke" {
+			g.wait()
+		}
+	})
+	defer sdklog.SetVerifHook(nil)
+	_, d := newDirected(i, sc, tw, res, bound)
+	d.await(d.goProc("e", &local{}, Step{Op: "Emit", Via: "old"}), "Emit returns")
+	parked := d.await(g.arrived, "poll goroutine parked at blp.poll.woke")
+	d.await(d.goProc("s1", &local{}, Step{Op: "Shutdown", Ctx: ctxKind}), "Shutdown("+ctxKind+") returns while the poll goroutine is parked")
+	close(g.release)
+	d.await(d.goProc("s2", &local{}, Step{Op: "Shutdown", Ctx: "live"}, Step{Op: "Get"}, Step{Op: "Emit", Via: "new"},
+		Step{Op: "Shutdown", Ctx: "live"}), "final calls")
+	if parked {
+		res.Count("log_out_of_time_schedules_driven", 1)
+	}
+	d.end(true)
+}
+
 // slowShutdown: a processor's Shutdown is held (natural gate) while other goroutines call
 // Shutdown, Unregister, ForceFlush, Tracer and end spans; then it is released.
 func slowShutdown(i int, tw *vh.TraceWriter, res *vh.Result, bound time.Duration) {
@@ -351,6 +394,10 @@ func directedMain(args []string) {
 		slowShutdown(i, tw, res, bound)
 		i++
 		slowUnregister(i, tw, res, bound)
+		i++
+		logBatchOutOfTime(i, "expiring", tw, res, bound)
+		i++
+		logBatchOutOfTime(i, "cancelled", tw, res, bound)
 		i++
 		bspRace(i, "D2-end-after-drain-must-return", true, false, tw, res, bound)
 		i++
